@@ -171,38 +171,45 @@ SEARCH_MODELLED = ["search/alphabeta.go: AlphaBeta.Search, runAlphaBeta.search; 
                    "transposition.go (sequential reading); board/movelist.go + container/heap Init/Pop -> Model.Search, Model.TT, Model.MoveList"]
 
 PROPS["C13"] = dict(
-    modules=["Morlock.Props.C13Window", "Morlock.Props.C09"],
+    modules=["Morlock.Props.C13", "Morlock.Props.C13Window", "Morlock.Props.C09"],
     streams=["c13"],
     timeout=dict(quick=900, thorough=6000),
-    level_text="Lean (so far): the window handed to a child is the exact inverse image of the parent window under the transformation applied to the child's result "
-               "(lift_childBound, all scores a parent can see), the pre-repair window is proved wrong on a concrete mate window, the order facts of C09. The Clip theorem "
-               "for the full transcription is in progress. Tie: searches with random windows (bounds -inf, mate +-k, heuristic values, +inf) on generated positions and "
-               "histories, impl vs model exact (nodes, score, PV), impl vs Clip of the exhaustive reference negamax (interval check in the C09 order).",
-    level_note="Trusted: Lean kernel; Model.Search tied exactly (node counts and PV tie-breaks included); Spec.Search exhaustive negamax with full-history draw rules.",
-    technique="Lean 4 lemmas on the window transformation + differential search with random windows against exhaustive negamax",
-    rule="positions with histories (corpus, mate endgames, synthetic) x depth 0-4 x 4 configurations x 5 windows; non-trivial = distinct script; mate-valued bounds counted in the distribution",
-    partial=["alphabeta_clip / quiescence_clip for all depths and windows: proof in progress; until then exploration"],
+    level_text="Lean theorems (full, every Game, exploration, depth and window with K+d <= 127 - the int8 mate-distance limit made explicit): with no table and no halt the "
+               "transcribed alpha-beta returns r with Clip(alpha, beta, V, r) where V is plain negamax over the same explored moves and leaf (alphabeta_clip), including "
+               "mate-score bounds and the degenerate child windows at the ends of the order (alphabeta_any_window); the quiescence search satisfies the same against its own "
+               "full-window value (quiescence_clip), never rates a position with a legal move below its static evaluation (standpat) and rates mate/stalemate exactly "
+               "(quiescence_terminal); the heap move order is proved to be a permutation (so the value is order independent). The pre-repair window is proved wrong on a witness. "
+               "Tie: random windows on generated positions/histories, impl vs model exact (nodes, score, PV), impl vs Clip of the exhaustive reference.",
+    level_note="Trusted: Lean kernel; Model.Search tied exactly (node counts and PV tie-breaks included); Spec.Search exhaustive negamax with full-history draw rules as the "
+               "implementation-side oracle. The theorems are about table-free, unhalted searches (tables: C11, halts: C12).",
+    technique="Lean 4 proof: loop invariant of the fail-hard move loop in rank space, graded validity of mate distances, permutation invariance of the reference maximum; differential windows",
+    rule="positions with histories (corpus, mate endgames, synthetic) x depth 0-4 x 4 configurations x 5 windows (bounds -inf, M+-k, heuristic, +inf); non-trivial = distinct script",
+    partial=[],
     modelled=SEARCH_MODELLED,
 )
 
 PROPS["C03"] = dict(
-    modules=["Morlock.Props.C13Window", "Morlock.Props.C09"],
+    modules=["Morlock.Props.C03", "Morlock.Props.C13", "Morlock.Props.C09"],
     streams=["c03"],
     timeout=dict(quick=900, thorough=6000),
-    level_text="Tie: full-window searches on generated positions WITH their game histories (repetition shuffles, clocks near 100), 4 configurations (full / no-under-promotion exploration x "
-               "static / capture-quiescence leaf): impl vs model exact (nodes, score, PV), impl vs the exhaustive reference negamax over Spec.Game (value, set of optimal first "
-               "moves), PV replayed for legality and length, every getter of the board compared before/after the search; the repository's own Minimax as a second opinion at greater depth. "
-               "Lean: window/ordering lemmas (C13Window, C09); the exactness theorem is a corollary of the C13 Clip theorem in progress.",
-    level_note="Trusted: Lean kernel; Model.Search tied exactly; Spec.Search reference. At a root where a draw can be claimed the root is searched (a move is wanted) - the reference does the same.",
-    technique="differential search against exhaustive negamax over full game histories + Lean lemmas; corollary of C13",
-    rule="lines of 0-24 plies from corpus / mate endgames / synthetic starts x depth 0-4 (deep only in sparse positions) x 4 configurations; non-trivial = distinct script; mate scores counted",
-    partial=["exact = minimax theorem pending (C13 clip); exhaustive reference quiescence only affordable with <= 12 men (busy positions: impl vs model only)"],
+    level_text="Lean theorems (full, every Game / exploration / leaf evaluation / depth with leafGrade + d <= 127): the full-window search returns exactly the negamax value V "
+               "(exact, search_exact), the PV is a path of legal explored moves no longer than the depth, and EVERY PV move attains the value of the position it is played in "
+               "(pv, pv_principal). Board hand-back is C08.pushes_pops on the arena plus the implementation-side comparison of every getter before/after each search. "
+               "Tie: full-window searches on generated positions WITH their game histories (repetition shuffles, clocks near 100, draws arising exactly at the horizon), "
+               "4 configurations; impl vs model exact, impl vs the exhaustive reference negamax over Spec.Game (value, set of optimal first moves); a harness-side exhaustive "
+               "negamax at depth 4-6 in sparse mate positions and the repository's Minimax as further oracles.",
+    level_note="Trusted: Lean kernel; Model.Search tied exactly; Spec.Search reference. 'mate score = forced mate in exactly that many plies' is the definition of V (NegInf at a "
+               "mated node, one ply added per level). At a root where a draw can be claimed the root is searched (a move is wanted) - the reference does the same.",
+    technique="Lean 4 proof (corollary of the C13 Clip theorem at the full window + PV invariant); differential search against exhaustive negamax over full game histories",
+    rule="lines of 0-24 plies from corpus / mate endgames / synthetic starts x depth 0-4 (deep only in sparse positions) x 4 configurations; curated horizon-draw and repetition histories; "
+         "deep oracle d=4-6; non-trivial = distinct script; mate scores counted",
+    partial=["exhaustive reference quiescence only affordable with <= 12 men (busy positions: impl vs model only)"],
     modelled=SEARCH_MODELLED,
 )
 
 PROPS["C11"] = dict(
     modules=["Morlock.Props.C13Window", "Morlock.Props.C09"],
-    streams=["c11"],
+    streams=["c11", "c11deep"],
     timeout=dict(quick=900, thorough=6000),
     level_text="Tie: sequences of searches sharing one table (iterative deepening 1..d, a repeated search, successive positions of a game), table sizes 32 B - 1 MB, with and "
                "without the min-depth write filter, on histories in which no repetition / fifty-move draw can arise inside the tree: impl vs model exact (the model threads the same "
